@@ -453,7 +453,7 @@ func execC17(t *trace.Trace, dir string) *harness.RunResult {
 func init() {
 	harness.Register(&harness.Prop{
 		ID: "C17", Engine: "E2", Level: "fault_enumeration", Gen: genC17, Exec: execC17,
-		Runs:      map[string]int{"quick": 320, "thorough": 6000},
+		Runs:      map[string]int{"quick": 640, "thorough": 16000},
 		Rule:      "per workload (an E1 history that writes a file, or a bundled reference file) faults are ENUMERATED: every truncation length 0..size-1 (files <= 16 KiB quick / 64 KiB thorough; larger: every structure boundary +-1 plus a stratified sample), every position k of a failing ReadAt in the reader's I/O sequence, and for writers every position k of a failing WriteAt/ReadAt/Sync plus a torn (half-persisted) variant of every write; relaxed oracle: each API result is an error or exactly the fault-free result, members/attributes never silently missing, no panic, and a fault that no call reported must leave the reopened file identical to the fault-free one; evaluations counts workloads plus every enumerated fault run; non-trivial = the workload's golden answer is non-empty and at least one fault fired inside an operation; distinct by (mode, workload identity, size, object count)",
 		Technique: "deterministic fault enumeration over the I/O step sequence of simulated runs (failing/torn calls, truncation) with a relaxed golden-answer oracle",
 		Assumptions: []string{"the statement is silent about file content after a call failed with an I/O error: only 'no panic' and 'an unreported fault changes nothing' are checked there",
